@@ -284,26 +284,41 @@ Lemma join_path_cons_l x pkg id :
   join_path [x :: pkg; id] = clean ((x :: pkg) ++ ch_slash :: id).
 Proof. reflexivity. Qed.
 
-(* L2 (with the two hypotheses ruling out a rooted join) *)
+Lemma clean_render_rel r : Forall plain r -> clean (render_rel r) = render_rel r.
+Proof.
+  destruct r as [|c cs]; [reflexivity|]. intro F. apply clean_join_plain; [discriminate | exact F].
+Qed.
+
+(* L2 (with the two hypotheses ruling out a rooted join): cleanOutputPath writes the elements
+   of the walk from the workspace root, "." when the walk ends at the root itself *)
+Lemma clean_output_path_rel : forall pkg id r,
+  resolve_from [] (split_slash pkg ++ split_slash id) = Some r ->
+  is_abs pkg = false -> (pkg = [] -> is_abs id = false) ->
+  clean_output_path pkg id = render_rel r.
+Proof.
+  intros pkg id r Hr Hpkg Hid. unfold clean_output_path.
+  assert (Hpl : Forall plain r) by exact (resolve_from_split2_plain pkg id _ Hr).
+  destruct pkg as [|x pkg].
+  - change (split_slash [] ++ split_slash id) with ([] :: split_slash id) in Hr.
+    rewrite resolve_from_cons in Hr. simpl (null [] || _) in Hr. cbv iota in Hr.
+    rewrite join_path_nil_l. destruct id as [|y id].
+    + simpl in Hr. inversion Hr; subst. reflexivity.
+    + simpl null. cbv iota.
+      rewrite (clean_rel (y :: id) r (Hid eq_refl) Hr).
+      exact (clean_render_rel r Hpl).
+  - rewrite join_path_cons_l.
+    rewrite (clean_rel ((x :: pkg) ++ ch_slash :: id) r).
+    + exact (clean_render_rel r Hpl).
+    + exact Hpkg.
+    + unfold resolve. rewrite split_slash_join. exact Hr.
+Qed.
+
 Lemma clean_output_path_plain : forall pkg id c cs,
   resolve_from [] (split_slash pkg ++ split_slash id) = Some (c :: cs) ->
   is_abs pkg = false -> (pkg = [] -> is_abs id = false) ->
   clean_output_path pkg id = join slash (c :: cs).
 Proof.
-  intros pkg id c cs Hr Hpkg Hid. unfold clean_output_path.
-  assert (Hpl : Forall plain (c :: cs)) by exact (resolve_from_split2_plain pkg id _ Hr).
-  destruct pkg as [|x pkg].
-  - change (split_slash [] ++ split_slash id) with ([] :: split_slash id) in Hr.
-    rewrite resolve_from_cons in Hr. simpl (null [] || _) in Hr. cbv iota in Hr.
-    rewrite join_path_nil_l. destruct id as [|y id]; [discriminate|].
-    simpl null. cbv iota.
-    rewrite (clean_rel (y :: id) (c :: cs) (Hid eq_refl) Hr).
-    apply clean_join_plain; [discriminate | exact Hpl].
-  - rewrite join_path_cons_l.
-    rewrite (clean_rel ((x :: pkg) ++ ch_slash :: id) (c :: cs)).
-    + apply clean_join_plain; [discriminate | exact Hpl].
-    + exact Hpkg.
-    + unfold resolve. rewrite split_slash_join. exact Hr.
+  intros pkg id c cs Hr Hpkg Hid. exact (clean_output_path_rel pkg id (c :: cs) Hr Hpkg Hid).
 Qed.
 
 (* ------------------------------------------------------------------ absolute walk *)
@@ -391,28 +406,6 @@ Lemma join_slash_inj : forall a b, a <> [] -> b <> [] -> Forall plain a -> Foral
 Proof.
   intros a b Ha Hb Fa Fb E. apply (f_equal split_slash) in E.
   rewrite (split_join_plain a Ha Fa), (split_join_plain b Hb Fb) in E. exact E.
-Qed.
-
-(* L5 *)
-Lemma path_within_comps : forall a d, a <> [] -> d <> [] -> Forall plain a -> Forall plain d ->
-  (path_within (join slash a) (join slash d) = true <-> exists r, a = d ++ r).
-Proof.
-  intros a d Ha Hd Fa Fd. unfold path_within. split.
-  - intro H. apply orb_true_iff in H as [H|H].
-    + apply str_eqb_eq in H. apply (join_slash_inj a d Ha Hd Fa Fd) in H.
-      exists []. rewrite app_nil_r. exact H.
-    + apply has_prefix_spec in H as [rest Hrest].
-      apply (f_equal split_slash) in Hrest.
-      rewrite (split_join_plain a Ha Fa) in Hrest.
-      rewrite <- app_assoc in Hrest.
-      change (slash ++ rest) with (ch_slash :: rest) in Hrest.
-      rewrite split_slash_join, (split_join_plain d Hd Fd) in Hrest.
-      exists (split_slash rest). exact Hrest.
-  - intros [r Hr]. subst a. destruct r as [|x r].
-    + rewrite app_nil_r, str_eqb_refl. reflexivity.
-    + apply orb_true_iff; right.
-      rewrite join_app; [|exact Hd|discriminate].
-      rewrite app_assoc. apply has_prefix_app.
 Qed.
 
 (* ------------------------------------------------------------------ escaping walks *)
@@ -548,6 +541,84 @@ Proof.
   - split; [reflexivity|]. intros _.
     destruct (clean_rel_none p Habs Hr) as [rest [Hc _]].
     rewrite Hc. apply escape_dotdot.
+Qed.
+
+(* ------------------------------------------------------------------ pathWithin vs elements *)
+
+(* a rendered non-empty list of plain elements is not "." *)
+Lemma join_plain_not_dot d : d <> [] -> Forall plain d -> str_eqb (join slash d) dot = false.
+Proof.
+  intros Hd Fd. apply str_eqb_neq. intro E. apply (f_equal split_slash) in E.
+  rewrite (split_join_plain d Hd Fd) in E. change (split_slash dot) with [dot] in E. subst d.
+  destruct (Forall_inv Fd) as [_ [_ [H _]]]. apply H; reflexivity.
+Qed.
+
+Lemma tries_to_escape_join_plain c cs :
+  Forall plain (c :: cs) -> tries_to_escape (join slash (c :: cs)) = false.
+Proof.
+  intro F. unfold tries_to_escape. cbv zeta. rewrite clean_join_plain; [|discriminate|exact F].
+  apply not_escape_plain. exact (Forall_inv F).
+Qed.
+
+(* L5: below a named directory the separator decides (dist / dist2) *)
+Lemma path_within_comps : forall a d, a <> [] -> d <> [] -> Forall plain a -> Forall plain d ->
+  (path_within (join slash a) (join slash d) = true <-> exists r, a = d ++ r).
+Proof.
+  intros a d Ha Hd Fa Fd. unfold path_within. rewrite (join_plain_not_dot d Hd Fd). split.
+  - intro H. apply orb_true_iff in H as [H|H].
+    + apply str_eqb_eq in H. apply (join_slash_inj a d Ha Hd Fa Fd) in H.
+      exists []. rewrite app_nil_r. exact H.
+    + apply has_prefix_spec in H as [rest Hrest].
+      apply (f_equal split_slash) in Hrest.
+      rewrite (split_join_plain a Ha Fa) in Hrest.
+      rewrite <- app_assoc in Hrest.
+      change (slash ++ rest) with (ch_slash :: rest) in Hrest.
+      rewrite split_slash_join, (split_join_plain d Hd Fd) in Hrest.
+      exists (split_slash rest). exact Hrest.
+  - intros [r Hr]. subst a. destruct r as [|x r].
+    + rewrite app_nil_r, str_eqb_refl. reflexivity.
+    + apply orb_true_iff; right.
+      rewrite join_app; [|exact Hd|discriminate].
+      rewrite app_assoc. apply has_prefix_app.
+Qed.
+
+Lemma dot_not_join_plain y d : Forall plain (y :: d) -> dot <> join slash (y :: d).
+Proof.
+  intros Fd E.
+  assert (H : str_eqb (join slash (y :: d)) dot = true) by (apply str_eqb_eq; symmetry; exact E).
+  rewrite join_plain_not_dot in H; [discriminate H | discriminate | exact Fd].
+Qed.
+
+(* L5b: the same for paths written the way Clean writes them, the root "." included:
+   pathWithin = prefix on path elements *)
+Lemma path_within_rel : forall a d, Forall plain a -> Forall plain d ->
+  (path_within (render_rel a) (render_rel d) = true <-> exists r, a = d ++ r).
+Proof.
+  intros a d Fa Fd. destruct d as [|y d]; destruct a as [|x a].
+  - split; [intros _; exists []; reflexivity | intros _; reflexivity].
+  - split; [intros _; exists (x :: a); reflexivity|]. intros _.
+    unfold render_rel, path_within. change (str_eqb dot dot) with true. cbv iota.
+    rewrite (is_abs_join_plain x a (Forall_inv Fa)), (tries_to_escape_join_plain x a Fa).
+    apply orb_true_r.
+  - split; [|intros [r Hr]; discriminate Hr]. intro H. exfalso.
+    unfold render_rel, path_within in H.
+    rewrite (join_plain_not_dot (y :: d)) in H; [|discriminate|exact Fd].
+    apply orb_true_iff in H as [H|H].
+    + apply str_eqb_eq in H. exact (dot_not_join_plain y d Fd H).
+    + apply has_prefix_spec in H as [rest E].
+      assert (Hin : In ch_slash dot).
+      { rewrite E. apply in_or_app; left. apply in_or_app; right. left; reflexivity. }
+      destruct Hin as [Hc|[]]. discriminate Hc.
+  - unfold render_rel. apply path_within_comps; try discriminate; assumption.
+Qed.
+
+Lemma render_rel_inj a b : Forall plain a -> Forall plain b -> render_rel a = render_rel b -> a = b.
+Proof.
+  intros Fa Fb E. destruct a as [|x a], b as [|y b]; unfold render_rel in E.
+  - reflexivity.
+  - exfalso. exact (dot_not_join_plain y b Fb E).
+  - exfalso. symmetry in E. exact (dot_not_join_plain x a Fa E).
+  - apply join_slash_inj; try discriminate; assumption.
 Qed.
 
 (* ------------------------------------------------------------------ DESIGN.md's lemmas *)
